@@ -14,7 +14,7 @@ import itertools
 import math
 import operator
 import re
-from typing import Iterator, NamedTuple
+from typing import Iterable, Iterator, NamedTuple
 
 import numpy
 
@@ -922,6 +922,43 @@ def stateful_generator(line, cells):
     return out
 
 
+def _groups_of(table, wanted):
+    groups = {}
+    for name, dims in table.items():
+        if wanted not in dims:
+            continue
+        groups.setdefault(frozenset(dims) - {wanted}, []).append(name)
+    return [Pair(first=key, second=tuple(names)) for key, names in groups.items()]
+
+
+def loop_over_built_list(table, wanted):
+    out = []
+    for group in _groups_of(table, wanted):
+        out.append((sorted(group.first), group.second[0], len(group.second)))
+        table = dict(table, seen=len(out))
+    return out, table
+
+
+def _count_items(items: Iterable[str]) -> int:
+    return len(set(items))
+
+
+def _kind_of(items):
+    return type(items).__name__
+
+
+def loop_copies(table):
+    """`t = tuple(x)` of the loop variable reads as `x` where only the items matter; not where the kind of sequence is seen."""
+    out = []
+    for key, names in table.items():
+        frozen = tuple(names)
+        out.append((key, frozen[0], len(frozen), _count_items(frozen), [n for n in frozen]))
+    for key, names in table.items():
+        kept = tuple(names)
+        out.append((key, _kind_of(kept), kept))
+    return out
+
+
 def _first_rising(values):
     shifted = values[1:]
     size = values.__len__
@@ -1367,6 +1404,8 @@ CASES = {
     'projected_comprehension': [([1, None, 3],), ([],)],
     'projected_loop': [([1, None, 3],), ([],)],
     'stateful_generator': [([1, 2, 3], {2: {2, 3}, 1: {1, 2}}), ([], {}), ([1], {1: set()})],
+    'loop_copies': [({'a': ['x', 'y', 'x'], 'b': ['z']},), ({},)],
+    'loop_over_built_list': [({'a': ('z', 'y'), 'b': ('z', 'y'), 'c': ('z', 'x'), 'd': ('y',)}, 'z'), ({}, 'z')],
     'search_helper': [([[1, 2, 3], [3, 1, 2, 5]],), ([[3, 2, 1]],), ([],)],
     'inline_tail': [({'a': 1, 2: 'two'}, 'a'), ({'a': 1, 2: 'two'}, '2'), ({}, 'z')],
     'inline_statement': [(2,), (0,)],
